@@ -762,6 +762,9 @@ func (nz *normaliser) list(list []ast.Stmt) []ast.Stmt {
 		}
 		if rep := nz.stmt(st); rep != nil {
 			out = append(out, spliceBlocks(rep)...)
+		} else if pre := nz.hoist(st); pre != nil {
+			out = append(out, pre...)
+			out = append(out, st)
 		} else {
 			out = append(out, st)
 		}
@@ -898,6 +901,181 @@ func (nz *normaliser) stmt(st ast.Stmt) []ast.Stmt {
 		}
 	}
 	return nil
+}
+
+// hoist: a call of a multi-statement helper that sits inside a larger expression of st (an operand of a comparison, an
+// argument, a field of a literal) is given a name in front of st — `tZq := h(x)` — so that the next round can expand it
+// as a statement. Allowed only where it changes nothing: the call is evaluated unconditionally (not on the right of
+// && / ||, not inside a literal function), and everything st evaluates before it is free of effects. `if a && !h(x) { S }`
+// (no else) is first written as `if a { if !h(x) { S } }`.
+func (nz *normaliser) hoist(st ast.Stmt) []ast.Stmt {
+	info := nz.pk.TypesInfo
+	if is, ok := st.(*ast.IfStmt); ok && is.Else == nil && is.Init == nil {
+		if be, ok := ast.Unparen(is.Cond).(*ast.BinaryExpr); ok && be.Op == token.LAND && nz.containsHelperCall(be.Y) && !nz.containsHelperCall(be.X) {
+			inner := &ast.IfStmt{Cond: be.Y, Body: is.Body}
+			is.Cond = be.X
+			is.Body = &ast.BlockStmt{List: []ast.Stmt{inner}}
+			nz.changed[nz.file] = true
+			nz.notes = append(nz.notes, "condition split in front of a helper call")
+			return []ast.Stmt{} // nothing to put in front; the statement itself was rewritten
+		}
+	}
+	var slots []*ast.Expr
+	switch x := st.(type) {
+	case *ast.ExprStmt:
+		slots = []*ast.Expr{&x.X}
+	case *ast.AssignStmt:
+		for i := range x.Rhs {
+			slots = append(slots, &x.Rhs[i])
+		}
+	case *ast.ReturnStmt:
+		for i := range x.Results {
+			slots = append(slots, &x.Results[i])
+		}
+	case *ast.IfStmt:
+		if x.Init == nil {
+			slots = []*ast.Expr{&x.Cond}
+		}
+	case *ast.RangeStmt:
+		slots = []*ast.Expr{&x.X}
+	case *ast.SwitchStmt:
+		if x.Init == nil && x.Tag != nil {
+			slots = []*ast.Expr{&x.Tag}
+		}
+	}
+	if len(slots) == 0 {
+		return nil
+	}
+	// walk the slots in evaluation order; stop at the first effectful thing
+	var target *ast.CallExpr
+	var h *helper
+	blocked := false
+	var visit func(e ast.Expr, conditional bool)
+	visit = func(e ast.Expr, conditional bool) {
+		if target != nil || blocked || e == nil {
+			return
+		}
+		switch x := e.(type) {
+		case *ast.ParenExpr:
+			visit(x.X, conditional)
+		case *ast.BinaryExpr:
+			visit(x.X, conditional)
+			visit(x.Y, conditional || x.Op == token.LAND || x.Op == token.LOR)
+		case *ast.UnaryExpr:
+			if x.Op == token.ARROW {
+				blocked = true
+				return
+			}
+			visit(x.X, conditional)
+		case *ast.StarExpr:
+			visit(x.X, conditional)
+		case *ast.SelectorExpr:
+			visit(x.X, conditional)
+		case *ast.IndexExpr:
+			visit(x.X, conditional)
+			visit(x.Index, conditional)
+		case *ast.SliceExpr:
+			visit(x.X, conditional)
+			visit(x.Low, conditional)
+			visit(x.High, conditional)
+			visit(x.Max, conditional)
+		case *ast.TypeAssertExpr:
+			visit(x.X, conditional)
+		case *ast.KeyValueExpr:
+			visit(x.Value, conditional)
+		case *ast.CompositeLit:
+			for _, el := range x.Elts {
+				visit(el, conditional)
+			}
+		case *ast.CallExpr:
+			if hh := nz.helperOf(info, x); hh != nil && hh.single == nil && hh.nres == 1 && !conditional {
+				argsPure := true
+				for _, a := range x.Args {
+					if !pureSyntax(a) {
+						argsPure = false
+					}
+				}
+				if sel, ok := ast.Unparen(x.Fun).(*ast.SelectorExpr); ok && !pureSyntax(sel.X) {
+					argsPure = false
+				}
+				if argsPure {
+					target, h = x, hh
+					return
+				}
+			}
+			// any other call: its operands first, then it is an effect
+			visit(x.Fun, conditional)
+			for _, a := range x.Args {
+				visit(a, conditional)
+			}
+			if target == nil {
+				if tv, isT := info.Types[x.Fun]; !(isT && tv.IsType()) {
+					if id, isID := x.Fun.(*ast.Ident); !(isID && (id.Name == "len" || id.Name == "cap")) {
+						blocked = true
+					}
+				}
+			}
+		case *ast.FuncLit:
+			// not evaluated here
+		}
+	}
+	for _, sl := range slots {
+		visit(*sl, false)
+		if target != nil || blocked {
+			break
+		}
+	}
+	if target == nil || h == nil {
+		return nil
+	}
+	// the whole slot being the call is the ordinary statement form, handled elsewhere
+	for _, sl := range slots {
+		if ast.Unparen(*sl) == ast.Expr(target) {
+			if _, isIf := st.(*ast.IfStmt); !isIf {
+				return nil
+			}
+		}
+	}
+	if u, ok := st.(*ast.IfStmt); ok {
+		c := ast.Unparen(u.Cond)
+		if c == ast.Expr(target) {
+			return nil // predicateIf
+		}
+		if n, ok := c.(*ast.UnaryExpr); ok && n.Op == token.NOT && ast.Unparen(n.X) == ast.Expr(target) {
+			return nil
+		}
+	}
+	nz.seq++
+	name := fmt.Sprintf("tZq%d", nz.seq)
+	def := &ast.AssignStmt{Lhs: []ast.Expr{ast.NewIdent(name)}, Tok: token.DEFINE, Rhs: []ast.Expr{target}}
+	replaced := false
+	replaceExprs(st, func(e ast.Expr) ast.Expr {
+		if e == ast.Expr(target) && !replaced {
+			replaced = true
+			return ast.NewIdent(name)
+		}
+		return nil
+	})
+	if !replaced {
+		return nil
+	}
+	nz.changed[nz.file] = true
+	nz.notes = append(nz.notes, fmt.Sprintf("call of %s named in front of its statement", funcName(h.obj)))
+	return []ast.Stmt{def}
+}
+
+func (nz *normaliser) containsHelperCall(e ast.Expr) bool {
+	found := false
+	ast.Inspect(e, func(n ast.Node) bool {
+		if _, isLit := n.(*ast.FuncLit); isLit {
+			return false
+		}
+		if c, ok := n.(*ast.CallExpr); ok && nz.helperOf(nz.pk.TypesInfo, c) != nil {
+			found = true
+		}
+		return !found
+	})
+	return found
 }
 
 // predicateIf: `if h(x) { S } else { E }` / `if !h(x) {…}` where h is a multi-statement predicate: S and E are copied to the
